@@ -193,25 +193,29 @@ def extra_stage(v, tier, rng, impl):
 
 
 def a2ml_moves_in_front_of_ifdata(text, written_names):
-    """IF_DATA is interpreted with the A2ML block that stands in front of it in the FILE.  If the input has an IF_DATA in front of its
-    first A2ML block and sort() moves the MODULE with the A2ML block in front of the MODULE with that IF_DATA, the reloaded file
-    interprets the IF_DATA (the loaded one had kept it uninterpreted)."""
+    """IF_DATA is interpreted with the A2ML blocks that stand in front of it in the FILE.  If sort() changes the order of a MODULE
+    that holds an A2ML block and another MODULE that holds an IF_DATA, the file written from the sorted model is read with that
+    IF_DATA interpreted under another set of definitions than the loaded (and sorted) model has."""
     import re
-    ia, ii = text.find('/begin A2ML'), text.find('/begin IF_DATA')
-    if ia < 0 or ii < 0 or ii > ia:
-        return False
     mods = [(m.start(), m.group(1)) for m in re.finditer(r'/begin\s+MODULE\s+(\S+)', text)]
+
     def module_of(pos):
         cur = None
         for st, nm in mods:
             if st <= pos:
                 cur = nm
         return cur
-    ma, mi = module_of(ia), module_of(ii)
-    if ma is None or mi is None or ma == mi:
-        return False
-    order = [n.decode('utf-8', 'replace') if isinstance(n, bytes) else n for n in written_names]
-    return ma in order and mi in order and order.index(ma) < order.index(mi)
+    a2ml_mods = {module_of(m.start()) for m in re.finditer(r'/begin\s+A2ML', text)} - {None}
+    ifd_mods = {module_of(m.start()) for m in re.finditer(r'/begin\s+IF_DATA', text)} - {None}
+    order_in = [nm for _, nm in mods]
+    order_out = [n.decode('utf-8', 'replace') if isinstance(n, bytes) else n for n in written_names]
+    for ma in a2ml_mods:
+        for mi in ifd_mods:
+            if ma == mi or ma not in order_out or mi not in order_out:
+                continue
+            if (order_in.index(ma) < order_in.index(mi)) != (order_out.index(ma) < order_out.index(mi)):
+                return True
+    return False
 
 
 def replay(r):
